@@ -50,11 +50,15 @@ impl<const ROUNDS: usize> Drg<ROUNDS> {
 
     /// fill N bytes of the mutable byte array with random data
     pub fn fill_bytes<const N: usize>(&mut self, out: &mut [u8; N]) {
+        // the keystream is xored in the buffer: clear what it contained before
+        *out = [0; N];
         self.0.process_mut(out)
     }
 
     /// fill bytes of the mutable byte slice with random data
     pub fn fill_slice(&mut self, out: &mut [u8]) {
+        // the keystream is xored in the buffer: clear what it contained before
+        out.fill(0);
         self.0.process_mut(out)
     }
 
